@@ -683,8 +683,33 @@ func (vc *VC) bindDebugNames(e *Env, li *loopInfo) {
 			continue
 		}
 		if len(vs) != 1 {
-			// prefer a header phi (already bound) else ambiguous
-			continue
+			// several SSA values carry this name: the one current at the loop header is the
+			// definition that dominates the header and is dominated by every other such definition
+			var best ssa.Instruction
+			ambiguous := false
+			for v := range vs {
+				in, ok := v.(ssa.Instruction)
+				if !ok || in.Block() == nil || !in.Block().Dominates(li.header) || (in.Block() == li.header) {
+					continue
+				}
+				switch {
+				case best == nil:
+					best = in
+				case in.Block() == best.Block():
+					if instrIndex(in) > instrIndex(best) {
+						best = in
+					}
+				case best.Block().Dominates(in.Block()):
+					best = in
+				case in.Block().Dominates(best.Block()):
+				default:
+					ambiguous = true
+				}
+			}
+			if best == nil || ambiguous {
+				continue
+			}
+			vs = map[ssa.Value]bool{best.(ssa.Value): true}
 		}
 		for v := range vs {
 			if t, ok := vc.vals[v]; ok {
@@ -843,6 +868,28 @@ func (vc *VC) loopHeader(li *loopInfo, b *ssa.BasicBlock, st *State, back map[[2
 				vc.assume(fmt.Sprintf("(forall ((x Int)) (! (=> %s (= (select %s x) (select %s x))) :pattern ((select %s x))))", and(conds...), nw, old, nw))
 				continue
 			}
+			if strings.HasPrefix(s, "(Array Int ") && !hasEmpty(wr[k]) && len(vc.loopClauses(li, "writes_own_objects")) > 0 {
+				// the body also writes objects reached through loop-carried variables: every such
+				// write is obliged (at the write) to hit an object that did not exist when the
+				// function was entered, so objects that did keep their values
+				old := vc.get(nst, k, s)
+				nw := vc.havoc(nst, k, s)
+				conds := []string{sx("is_old", "x")}
+				for _, ix := range sortedKeys(wr[k]) {
+					if loopInvariantTerm(ix) {
+						conds = append(conds, not(sx("=", "x", ix)))
+					}
+				}
+				vc.assume(fmt.Sprintf("(forall ((x Int)) (! (=> %s (= (select %s x) (select %s x))) :pattern ((select %s x))))", and(conds...), nw, old, nw))
+				if vc.loopFrame == nil {
+					vc.loopFrame = map[*loopInfo]map[string]bool{}
+				}
+				if vc.loopFrame[li] == nil {
+					vc.loopFrame[li] = map[string]bool{}
+				}
+				vc.loopFrame[li][k] = true
+				continue
+			}
 			vc.havoc(nst, k, s)
 		}
 	}
@@ -885,6 +932,19 @@ func (vc *VC) loopHeader(li *loopInfo, b *ssa.BasicBlock, st *State, back map[[2
 			break
 		}
 		vc.bindFresh(phi, rname)
+		// whatever a loop-carried variable refers to existed when this iteration started, so it
+		// differs from everything the body allocates in this iteration
+		if t, ok := vc.vals[phi]; ok && t.Loc == nil {
+			cur := vc.declareCur(li.ordinal)
+			switch t.Sort {
+			case "Int":
+				if _, isPtr := types.Unalias(phi.Type()).Underlying().(*types.Pointer); isPtr {
+					vc.assume(sx(cur, t.S))
+				}
+			case "Slice":
+				vc.assume(sx(cur, sx("sl_ref", t.S)))
+			}
+		}
 	}
 	env := vc.loopEnv(li, nst, func(phi *ssa.Phi) Term { return vc.vals[phi] })
 	for _, c := range invs {
@@ -1407,6 +1467,9 @@ func (vc *VC) convert(st *State, x *ssa.Convert) {
 		name, sortName := vc.elemVar(types.Typ[types.Uint8])
 		vc.P.prelude.use(vc, "str_of_slice")
 		vc.define(x, Term{S: sx("str_of_slice", sx("select", vc.get(st, name, sortName), sx("sl_ref", a.S)), sx("sl_off", a.S), sx("sl_len", a.S)), Sort: "Str", T: x.Type()})
+		// the same fact phrased over element reads of the slice, so that quantified facts about a[k] apply
+		vc.assume(fmt.Sprintf("(forall ((i Int)) (! (=> (and (<= 0 i) (< i (sl_len %s))) (= (select (sarr %s) i) (select (select %s (sl_ref %s)) (sl_idx %s i)))) :pattern ((select (sarr %s) i))))",
+			a.S, vc.vals[x].S, vc.get(st, name, sortName), a.S, a.S, vc.vals[x].S))
 	case fok && fb.Info()&types.IsString != 0 && vc.ss().sortOf(x.Type()) == "Slice":
 		// []byte(string): fresh backing holding the bytes
 		r := vc.allocRef("bytes_" + x.Name())
@@ -1648,4 +1711,17 @@ func (vc *VC) panicExit(st *State, guard string, pos token.Pos, what string) {
 		}
 		vc.oblige("ensures-on-panic", c.label()+":"+what, c.Props, guard, s, c.Text, pos)
 	}
+}
+
+func instrIndex(in ssa.Instruction) int {
+	for i, x := range in.Block().Instrs {
+		if x == in {
+			return i
+		}
+	}
+	return -1
+}
+
+func hasEmpty(m map[string]bool) bool {
+	return m[""]
 }
